@@ -568,6 +568,38 @@ def main():
                               'accepted, then: ' + ex_detail, {'text': text, 'classification': kind})
         else:
             chk.nontrivial_case(('a', text))
+    # a job object that already holds an accepted program is given a text that is rejected (from a
+    # string and from a file): nothing may be left to run
+    import tempfile
+    from bardolph.controller.script_job import ScriptJob
+    rejected_texts = [t for _n, t in RULES] + ['on all hue', 'on all set all break', 'on all assign 5 5',
+                                                'on all define m 1 assign m 2', 'on all hue {1 +', 'on all repeat 2 begin off all']
+    stats['reused_jobs'] = 0
+    for k, bad_text in enumerate(rejected_texts):
+        for via in ('string', 'file'):
+            job = ScriptJob()
+            job.load_string('on all set all print 1')
+            if via == 'string':
+                job.load_string(bad_text)
+            else:
+                with tempfile.NamedTemporaryFile('w', suffix='.ls', delete=False) as f:
+                    f.write(bad_text)
+                try:
+                    job.load_file(f.name)
+                finally:
+                    os.unlink(f.name)
+            stats['reused_jobs'] += 1
+            chk.count()
+            outcome, _detail = execute(job, POP)
+            sent = simnet.device_calls(simnet.SimLan.net)
+            if job.program or sent:
+                chk.violation('rejected-text-leaves-a-program',
+                              'a job that held an accepted program was given the rejected text {!r} (from a {}): '
+                              'it keeps {} instruction(s) and running it sends {} device command(s)'.format(
+                                  bad_text[:50], via, len(job.program or []), len(sent)),
+                              {'first': 'on all set all print 1', 'second': bad_text, 'via': via})
+            else:
+                chk.nontrivial_case(('reuse', via, bad_text))
     run_pumps(chk, pump_inputs(rng, chk.thorough) + expr_inputs(rng, chk.thorough), stats)
     # ---- tie: real parser vs the model ParseTok on the fixed texts and a seeded sample
     parse_text_tie(chk, fixed_texts + [(s, t) for s, t in inputs if not s.startswith('rule:')],
